@@ -3,4 +3,4 @@
    extraction disambiguates the identically named definitions of the three systems. *)
 From Coq Require Import Extraction ExtrOcamlBasic.
 From SP Require Import Replay ReplayInst.
-Extraction "rmodel.ml" RS.slots_replay RSI RT.task_replay RT.table_cfg RT.rows_ok RTI RN.net_replay RNI.
+Extraction "rmodel.ml" RS.slots_replay RSI RT.task_replay RT.table_cfg RT.rows_ok RTI RN.net_replay RNI RP.port_replay RPI.
